@@ -29,6 +29,10 @@ CHECKS = {
             'record is stored only after node_exists of both endpoints, R05d delete_node reads both edge lists, deletes incident edges '
             'and both list keys before/with the node',
             'RMW detection by def-use slices, guard live ranges with held-on-entry summaries over the call graph, table agreement'),
+    'C06': ('§3 C06', 'R06a every mutation of an embedding key (directly or in a closure) is followed or preceded by '
+            'invalidate_hnsw_cache of the matching collection on all success paths (vector-preserving metadata rewrites exempt), '
+            'R06b the cache has two writers only and readers take index and key list from one guard acquisition',
+            'must-pass-through on MIR CFG, def-use slices for key provenance, who-may-write via guard kinds'),
     'C10': ('§3 C10', 'R01a persist-before-mutate of term/vote (cut-reachability over Ok-edges of the persist call, all write sites '
             'in the workspace), R10a every log growth site reaches success only through a successful persist, R10c recovery '
             'table covers every record the node writes and keeps the first vote of a term, R02b tail repair on reopen, R02e replay '
